@@ -152,7 +152,11 @@ impl ChainService {
                 "insert block {}-{} failed: {:?}",
                 block_number, block_hash, err
             );
-            self.shared.block_status_map().remove(&block_hash);
+            // keep a BLOCK_INVALID mark: the insert can fail because the verify thread has just found
+            // an earlier copy of this block invalid and deleted it (transaction conflict)
+            self.shared
+                .block_status_map()
+                .remove_if(&block_hash, |_, status| !status.eq(&BlockStatus::BLOCK_INVALID));
             #[cfg(ckb_verif)]
             crate::verif::emit(
                 "InsertFail",
